@@ -1,6 +1,7 @@
 CONSTANTS
   EB = 20
   StaleP = 200
+  BT = 1
   MaxOps = 5
   MaxMonths = 3
   GenHist = TRUE
